@@ -106,13 +106,15 @@ func (c *FenceConn) BeginTx(ctx context.Context, opts driver.TxOptions) (driver.
 		return nil, errors.New("operation unsupported")
 	}
 
+	// (before anything is begun: a transaction begun here and refused afterwards would stay open on the
+	// connection, which database/sql puts back into its pool)
+	if !tm.IsSeataContext(ctx) {
+		return nil, errors.New("there is not seata context")
+	}
+
 	tx, err := beginer.BeginTx(ctx, opts)
 	if err != nil {
 		return nil, err
-	}
-
-	if !tm.IsSeataContext(ctx) {
-		return nil, errors.New("there is not seata context")
 	}
 
 	// check if have been begin fence tx
